@@ -45,21 +45,25 @@ impl FromStr for Database {
             }
 
             if line.starts_with("classes") {
-                classes.append(
-                    &mut parse_classes(line)
-                        .map_err(|err| {
-                            DatabaseError::Parse(format!("fail to parse `classes`: {line}, {err}"))
-                        })?
-                        .1,
-                );
+                let (remaining, mut parsed) = parse_classes(line).map_err(|err| {
+                    DatabaseError::Parse(format!("fail to parse `classes`: {line}, {err}"))
+                })?;
+                if !remaining.trim().is_empty() {
+                    return Err(DatabaseError::Parse(format!(
+                        "fail to parse `classes`: {line}, unexpected trailing input: {remaining}"
+                    )));
+                }
+                classes.append(&mut parsed);
             } else if line.starts_with("ua_os") {
-                ua_os_entries.append(
-                    &mut parse_ua_os(line)
-                        .map_err(|err| {
-                            DatabaseError::Parse(format!("fail to parse `ua_os`: {line}, {err}"))
-                        })?
-                        .1,
-                );
+                let (remaining, mut parsed) = parse_ua_os(line).map_err(|err| {
+                    DatabaseError::Parse(format!("fail to parse `ua_os`: {line}, {err}"))
+                })?;
+                if !remaining.trim().is_empty() {
+                    return Err(DatabaseError::Parse(format!(
+                        "fail to parse `ua_os`: {line}, unexpected trailing input: {remaining}"
+                    )));
+                }
+                ua_os_entries.append(&mut parsed);
             } else if line.starts_with('[') && line.ends_with(']') {
                 cur_mod = Some(
                     parse_module(line)
@@ -276,11 +280,18 @@ fn parse_ua_os(input: &str) -> IResult<&str, Vec<(String, Option<String>)>> {
 }
 
 fn parse_key_value(input: &str) -> IResult<&str, (&str, Option<&str>)> {
-    let (input, (name, _, value)) =
-        (alphanumeric1, space0, opt(preceded((space0, tag("="), space0), alphanumeric1)))
-            .parse(input)?;
+    // `name` or `name=[value]` (p0f syntax, e.g. `Mac OS X`, `iOS=[iPad]`); a bare `name=value` is
+    // accepted as well. Names may contain blanks.
+    let (input, (name, value)) = (
+        nom::bytes::complete::take_while1(|c: char| c != ',' && c != '=' && c != '[' && c != ']'),
+        opt(preceded(
+            (space0, tag("="), space0),
+            alt((terminated(preceded(tag("["), take_until("]")), tag("]")), alphanumeric1)),
+        )),
+    )
+        .parse(input)?;
 
-    Ok((input, (name, value)))
+    Ok((input, (name.trim(), value)))
 }
 
 fn parse_label(input: &str) -> IResult<&str, Label> {
